@@ -37,6 +37,13 @@ def corpus(tier, rng):
     examples = [f for f in rel("/examples/**/*.py") if "/visual/" not in f and not f.endswith("common.py")
                 and "__init__" not in f]
     lib = [f"lib:{n}" for n in ("poisson_queue", "fam_c19_mq", "fam_c19_topic", "fam_contention")]
+    # scenario libraries (harness/scenarios_*.py): hostile parameter choices per component family, run
+    # in groups of one child process each; every scenario is run in both tiers
+    from .. import scenarios as _sc
+    for prefix in sorted({n.split("_")[0] + "_" for n in _sc.SCENARIOS if n.split("_")[0] in ("svc", "ops", "data")}):
+        cnt = len([n for n in _sc.SCENARIOS if n.startswith(prefix)])
+        groups = max(1, min(8, cnt // 10))
+        lib += [f"libgroup:{prefix}:{k}:{groups}" for k in range(groups)]
     if tier == "quick":
         files = rng.sample(integ, min(12, len(integ))) + rng.sample(units, min(16, len(units)))
         ex = rng.sample(examples, min(4, len(examples)))
@@ -115,7 +122,13 @@ def run(tier, seed, replay=None):
         if o.get("timeout") or o.get("failed"):
             skipped.append(s)
             continue
+        ranges = (o.get("info") or {}).get("ranges") or {}
+        for name, err in ((o.get("info") or {}).get("errors") or {}).items():
+            chk.note_drift(f"scenario {name} raised {err}")
         for k, sim in enumerate(o["sims"]):
+            sub = next((n for n, (a, b) in ranges.items() if a <= k < b), None)
+            if sub:
+                sim = dict(sim, scenario=sub)
             lib_past = [p for p in sim["past"] if p["module"].startswith(LIB_PREFIXES)]
             rid = len(recs) + 1
             recs.append({"id": rid, "n": sim["n"], "maxinst": sim["max_inst"], "limit": SPIN_LIMIT,
@@ -131,6 +144,7 @@ def run(tier, seed, replay=None):
         if v == "ACCEPT":
             continue
         s, k, sim, lib_past = meta[rid]
+        s = f"lib:{sim['scenario']}" if sim.get("scenario") else s
         if v == "PROP:emitted_into_the_past":
             for p in lib_past:
                 chk.violation(f"past_emission:{p['emitter']}:{p['etype'].split(':')[0][:40]}",
